@@ -576,6 +576,22 @@ def _branch_conds_after(n):
             if "guard" in a:
                 out += split_cond(a["guard"], True)
             return out
+        if len(live) > 1 and not n.get("source", "").startswith(("TryDesugar", "ForLoop")):
+            # several surviving arms: at least the arms that leave (return / break / continue) were not taken -
+            # said of the scrutinee only when no surviving arm before them could have matched the same variant
+            out = []
+            for i, a in enumerate(n["arms"]):
+                if not diverges(a["body"]) or "guard" in a:
+                    continue
+                v = pat_variant(a["pat"])
+                if not isinstance(v, str) or v == "_":
+                    continue
+                earlier = [pat_variant(b["pat"]) for b in n["arms"][:i] if not diverges(b["body"])]
+                flat = [y for x in earlier for y in (x if isinstance(x, tuple) else (x,))]
+                if any(y == v or y == "_" or y is None for y in flat):
+                    continue
+                out.append({"t": "pat", "scrut": n["scrut"], "pat": a["pat"], "v": False})
+            return out
         return []
     if k == "BlockExpr":
         return []
